@@ -555,18 +555,18 @@ def gen_asc_ortho_take(src, name):
     return emit_block(parse_block(body), cx, 4)
 
 
-def gen_prolongation(src):
-    params, body = macro_body(src, 'FINE_NODE_PROLONGATION')
+def gen_prolongation(src, macro='FINE_NODE_PROLONGATION', fn_name='applyProlongation'):
+    params, body = macro_body(src, macro)
     if params not in ([], ['']):
-        raise TranslateError('FINE_NODE_PROLONGATION has parameters: %r' % (params,))
+        raise TranslateError('%s has parameters: %r' % (macro, params))
     # the macro uses i_r_coarse / i_theta_coarse of the enclosing loops: they must be i_r / 2 and i_theta / 2 at every use
     clean = strip_comments(src)
-    fn = find_function_body(clean, r'void\s+Interpolation::applyProlongation\s*\(')
-    uses = len(re.findall(r'FINE_NODE_PROLONGATION\s*\(\s*\)', fn))
+    fn = find_function_body(clean, r'void\s+Interpolation::' + fn_name + r'\s*\(')
+    uses = len(re.findall(macro + r'\s*\(\s*\)', fn))
     d1 = len(re.findall(r'int\s+i_r_coarse\s*=\s*i_r\s*/\s*2\s*;', fn))
     d2 = len(re.findall(r'int\s+i_theta_coarse\s*=\s*i_theta\s*/\s*2\s*;', fn))
     if uses == 0 or d1 != uses or d2 != uses or len(re.findall(r'\bi_r_coarse\s*=', fn)) != d1 or len(re.findall(r'\bi_theta_coarse\s*=', fn)) != d2:
-        raise TranslateError('applyProlongation: i_r_coarse / i_theta_coarse are not i_r / 2 and i_theta / 2 at every use of the macro')
+        raise TranslateError('%s: i_r_coarse / i_theta_coarse are not i_r / 2 and i_theta / 2 at every use of the macro' % fn_name)
     cx = Ctx(arrays2={'x': 'x', 'result': 'result'}, arrays1={}, own2={}, own1={},
              int_names={'i_r': 'i', 'i_theta': 'j', 'i_r_coarse': '(Z.quot i 2)', 'i_theta_coarse': '(Z.quot j 2)'}, real_names={}, bools={})
     return emit_block(parse_block(body), cx, 4)
@@ -689,6 +689,8 @@ def main():
         give = gen_give(give_src)
         rhs = gen_rhs(open(files['rhs']).read())
         prol = gen_prolongation(open(os.path.join(REPO, 'src/Interpolation/prolongation.cpp')).read())
+        exprol = gen_prolongation(open(os.path.join(REPO, 'src/Interpolation/extrapolated_prolongation.cpp')).read(),
+                                  'FINE_NODE_EXTRAPOLATED_PROLONGATION', 'applyExtrapolatedProlongation')
         sm_src = open(os.path.join(REPO, 'src/Smoother/SmootherTake/smootherSolver.cpp')).read()
         asc_c = gen_asc_ortho_take(sm_src, 'NODE_APPLY_ASC_ORTHO_CIRCLE_TAKE')
         asc_r = gen_asc_ortho_take(sm_src, 'NODE_APPLY_ASC_ORTHO_RADIAL_TAKE')
@@ -709,6 +711,8 @@ def main():
         out += '  Definition gen_rhs_%s (rhs_f : Z -> Z -> S) (i j : Z) : list gwrite :=\n    %s.\n' % (nm, term)
     out += '\n  (* ---- FINE_NODE_PROLONGATION (src/Interpolation/prolongation.cpp), x indexed by coarse nodes, nthc = coarse ntheta ---- *)\n'
     out += '  Definition gen_prolongation (x : Z -> Z -> S) (i j : Z) : list gwrite :=\n    %s.\n' % prol
+    out += '  (* FINE_NODE_EXTRAPOLATED_PROLONGATION (src/Interpolation/extrapolated_prolongation.cpp) *)\n'
+    out += '  Definition gen_extrapolated_prolongation (x : Z -> Z -> S) (i j : Z) : list gwrite :=\n    %s.\n' % exprol
     out += '\n  (* ---- take smoother: NODE_APPLY_ASC_ORTHO_CIRCLE_TAKE / _RADIAL_TAKE (src/Smoother/SmootherTake/smootherSolver.cpp) ---- *)\n'
     out += '  Definition gen_asc_ortho_circle_take (rhs x : Z -> Z -> S) (i j : Z) : list gwrite :=\n    %s.\n' % asc_c
     out += '  Definition gen_asc_ortho_radial_take (rhs x : Z -> Z -> S) (i j : Z) : list gwrite :=\n    %s.\n' % asc_r
